@@ -24,13 +24,14 @@ ID = "C12"
 # constants of the TLC jobs per tier: (NRep, NElem, MaxUpd, MaxSnap)
 MC_BOUNDS = {
     "quick": {"gcounter": (2, 1, 3, 1), "aworset": (2, 1, 4, 1), "lww": (2, 1, 3, 1)},
-    "thorough": {"gcounter": (3, 1, 4, 1), "aworset": (3, 1, 4, 1), "lww": (2, 2, 4, 1)},
+    "thorough": {"gcounter": (3, 1, 4, 1), "aworset": (3, 1, 4, 0), "lww": (2, 2, 4, 1)},
 }
 MC_EXTRA_THOROUGH = {"aworset": (2, 2, 4, 1), "lww": (3, 1, 3, 1)}
-GEN_BOUNDS = {
-    "quick": {"set": (2, 1, 3, 1), "gcounter": (2, 1, 3, 1)},
-    "thorough": {"set": (2, 1, 4, 1), "gcounter": (2, 1, 4, 1)},
-}
+# generator graphs: every covering walk of the first is replayed in the thorough tier (a seeded sample in the
+# quick tier); the thorough tier adds a seeded sample of the covering walks of the deeper second graph
+GEN_BOUNDS = {"set": (2, 1, 3, 1), "gcounter": (2, 1, 3, 1)}
+GEN2_BOUNDS = {"set": (2, 1, 4, 1), "gcounter": (2, 1, 4, 1)}
+GEN2_SAMPLE = 3000
 
 
 def set_consts(path, nrep, nelem, maxupd, maxsnap, amts=None):
@@ -208,8 +209,8 @@ def run(chk):
         set_consts(os.path.join(d, cfg), *bounds, amts="1, 2" if impl == "gcounter" else None)
         return V.tlc(d, "MCCRDT", cfg=cfg, workers=6 if quick else 8, timeout=timeout, deadlock=False)
 
-    def gen_job(kind, cfg, bounds, timeout):
-        d = subdir(work, "gen-" + kind)
+    def gen_job(kind, cfg, bounds, timeout, tag="gen-"):
+        d = subdir(work, tag + kind)
         set_consts(os.path.join(d, cfg), *bounds)
         res = V.tlc(d, "CRDTTypes", cfg=cfg, workers=1, timeout=timeout, deadlock=False)
         return res, os.path.join(d, "edges.ndjson")
@@ -229,8 +230,11 @@ def run(chk):
     t0 = time.time()
     ex = concurrent.futures.ThreadPoolExecutor(max_workers=6 if quick else 5)
     # generators first (the replay waits for them); the design-level jobs keep running during replay and folding
-    jobs["gen-set"] = ex.submit(gen_job, "set", "GenSet.cfg", GEN_BOUNDS[tier]["set"], tmo)
-    jobs["gen-gcounter"] = ex.submit(gen_job, "gcounter", "GenCounter.cfg", GEN_BOUNDS[tier]["gcounter"], tmo)
+    jobs["gen-set"] = ex.submit(gen_job, "set", "GenSet.cfg", GEN_BOUNDS["set"], tmo)
+    jobs["gen-gcounter"] = ex.submit(gen_job, "gcounter", "GenCounter.cfg", GEN_BOUNDS["gcounter"], tmo)
+    if not quick:
+        jobs["gen2-set"] = ex.submit(gen_job, "set", "GenSet.cfg", GEN2_BOUNDS["set"], tmo, "gen2-")
+        jobs["gen2-gcounter"] = ex.submit(gen_job, "gcounter", "GenCounter.cfg", GEN2_BOUNDS["gcounter"], tmo, "gen2-")
     jobs["pin-aworset"] = ex.submit(mc_job, "pin-aworset", "aworset-pinned", "MCPinnedAW.cfg", (2, 1, 4, 1), tmo)
     jobs["pin-lww"] = ex.submit(mc_job, "pin-lww", "lww-pinned", "MCPinnedLWW.cfg", (2, 1, 4, 1), tmo)
     jobs["sim-set"] = ex.submit(sim_job, "set", "SimSet.cfg", nsim, simlen, tmo)
@@ -284,21 +288,25 @@ def run(chk):
     maxlen = 14 if quick else 22
     cap = 60 if quick else None  # quick: seeded sample of the covering walks; thorough: all of them
     for kind, targets in (("set", ("aworset", "lww")), ("gcounter", ("gcounter",))):
-        res, epath = jobs["gen-" + kind].result()
-        chk.add_tlc("gen-%s: complete history graph of CRDTTypes (AuthorPrefix, PrefixObserved), transitions exported" % kind, res)
-        if not res.ok or not os.path.exists(epath):
-            raise V.Inconclusive("generator gen-%s failed: %s" % (kind, res.error or res.violation or "no edges"))
-        init, out = load_edges(epath)
-        walks, total, nstates = covering_walks(init, out, maxlen, rng)
-        b = GEN_BOUNDS[tier][kind]
-        gen_notes["gen-" + kind] = {"states": nstates, "transitions": total, "covering_walks": len(walks),
-                                    "bounds(NRep,NElem,MaxUpd,MaxSnap)": b}
-        if cap and len(walks) > cap:
-            walks = rng.sample(walks, cap)
-        gen_notes["gen-" + kind]["walks_replayed"] = len(walks)
-        for w in walks:
-            for t in targets:
-                cases.append({"kind": t, "nrep": b[0], "nelem": b[1] if kind == "set" else 0, "nslot": b[3], "steps": w, "src": "walk"})
+        for tag, bounds, sample in (("gen-", GEN_BOUNDS, cap), ("gen2-", GEN2_BOUNDS, GEN2_SAMPLE)):
+            if tag + kind not in jobs:
+                continue
+            res, epath = jobs[tag + kind].result()
+            chk.add_tlc("%s%s: complete history graph of CRDTTypes (AuthorPrefix, PrefixObserved), transitions exported" % (tag, kind), res)
+            if not res.ok or not os.path.exists(epath):
+                raise V.Inconclusive("generator %s%s failed: %s" % (tag, kind, res.error or res.violation or "no edges"))
+            init, out = load_edges(epath)
+            walks, total, nstates = covering_walks(init, out, maxlen, rng)
+            b = bounds[kind]
+            gen_notes[tag + kind] = {"states": nstates, "transitions": total, "covering_walks": len(walks),
+                                     "bounds(NRep,NElem,MaxUpd,MaxSnap)": b}
+            if sample and len(walks) > sample:
+                walks = rng.sample(walks, sample)
+            gen_notes[tag + kind]["walks_replayed"] = len(walks)
+            for n, w in enumerate(walks):
+                for t in targets:
+                    cases.append({"kind": t, "nrep": b[0], "nelem": b[1] if kind == "set" else 0, "nslot": b[3], "steps": w,
+                                  "src": "walk" if tag == "gen-" else "walk2", "noprobe": (not quick) and n % 4 != 0})
         res, spath = jobs["sim-" + kind].result()
         chk.tlc_jobs.append(res.summary("sim-%s: random histories of CRDTTypes beyond the exhaustive bounds" % kind))
         chk.transitions += res.generated
@@ -314,7 +322,7 @@ def run(chk):
     for i, c in enumerate(cases):
         c["case"] = "%s-%s-%d" % (c.pop("src"), c["kind"], i)
         c["uni"] = (chk.seed + i) % 6
-        c["probes"] = 3 if quick else 5
+        c["probes"] = 0 if c.pop("noprobe", False) else (3 if quick else 5)
         c["trip"] = 2 if quick else 6
     return judge(chk, work, drv, cases, gen_notes, quick, collect_design)
 
@@ -326,7 +334,10 @@ def judge(chk, work, drv, cases, gen_notes, quick, collect_design=None):
             f.write(json.dumps(c) + "\n")
     tpath = os.path.join(chk.tmp, "trace.ndjson")
     t0 = time.time()
-    rc, o = V.run([drv, "-cases", cpath, "-out", tpath, "-seed", str(chk.seed)], timeout=1800)
+    rc, o = V.run([drv, "-cases", cpath, "-out", tpath, "-seed", str(chk.seed), "-par", "8"], timeout=1800)
+    if rc == 3:
+        chk.inconclusive.append("c12drv: a case did not finish within the watchdog (hang is not a verdict)")
+        rc = 0
     if rc != 0:
         raise V.Inconclusive("c12drv failed rc=%s: %s" % (rc, o[-2000:]))
     chk.notes["phase_s"]["driver"] = round(time.time() - t0, 1)
